@@ -7,7 +7,7 @@ RULE = ('roll-up (depth 2-4, base rows 15/14/13/12, RU re-sent on every line or 
         'starting at timecode 00:00:00:00 or later, with switches between the two modes and to pop-on, rows '
         'of uniquely tagged plain text optionally with special / extended characters (own code tables). '
         'Oracle: characters conserved in order, every row inside one caption, starts non-decreasing, '
-        'start < end, end[i] == start[i+1]. Non-trivial: >= 2 rows transmitted.')
+        'start < end, end[i] == start[i+1]. One stream in five is read by a reader object used before. Non-trivial: >= 2 rows transmitted.')
 ANCHORS = ['pycaption.scc:SCCReader._flush_implicit_buffers',
            'pycaption.scc.specialized_collections:NotifyingDict.set_active',
            'pycaption.scc:SCCReader._translate_command', 'pycaption.scc:SCCReader._roll_up',
